@@ -184,6 +184,9 @@ func (cat *Catalog) BuildKnowledgeBase() (*KnowledgeBase, error) {
 					return nil, err
 				}
 				dLen := binary.LittleEndian.Uint64(length)
+				if dLen > uint64(buffer.Len()) {
+					return nil, fmt.Errorf("string constant of %d bytes in a value of %d bytes", dLen, buffer.Len())
+				}
 				byteArr := make([]byte, dLen)
 				_, err = buffer.Read(byteArr)
 				if err != nil {
@@ -765,14 +768,14 @@ func (cat *Catalog) ReadCatalogFromReader(reader io.Reader) error {
 
 			return err
 		}
-		content := make([]string, incount)
+		content := make([]string, 0, preallocCount(incount))
 		for subIndex := uint64(0); subIndex < incount; subIndex++ {
 			str, err := ReadStringFromReader(reader)
 			if err != nil {
 
 				return err
 			}
-			content[subIndex] = str
+			content = append(content, str)
 		}
 		cat.MemoryExpressionVariableMap[key] = content
 	}
@@ -796,14 +799,14 @@ func (cat *Catalog) ReadCatalogFromReader(reader io.Reader) error {
 
 			return err
 		}
-		content := make([]string, incount)
+		content := make([]string, 0, preallocCount(incount))
 		for subIndex := uint64(0); subIndex < incount; subIndex++ {
 			str, err := ReadStringFromReader(reader)
 			if err != nil {
 
 				return err
 			}
-			content[subIndex] = str
+			content = append(content, str)
 		}
 		cat.MemoryExpressionAtomVariableMap[key] = content
 	}
@@ -1197,14 +1200,14 @@ func (meta *ArgumentListMeta) ReadMetaFrom(reader io.Reader) error {
 		return err
 	}
 
-	meta.ArgumentASTIDs = make([]string, integer)
+	meta.ArgumentASTIDs = make([]string, 0, preallocCount(integer))
 	for index := uint64(0); index < integer; index++ {
 		s, err := ReadStringFromReader(reader)
 		if err != nil {
 
 			return err
 		}
-		meta.ArgumentASTIDs[index] = s
+		meta.ArgumentASTIDs = append(meta.ArgumentASTIDs, s)
 	}
 
 	return nil
@@ -1549,15 +1552,10 @@ func (meta *ConstantMeta) ReadMetaFrom(reader io.Reader) error {
 
 		return err
 	}
-	byteArr := make([]byte, length)
-	readCount, err := reader.Read(byteArr)
+	byteArr, err := readBytesFromReader(reader, length)
 	if err != nil {
 
 		return err
-	}
-	if uint64(readCount) != length {
-
-		return io.ErrShortBuffer
 	}
 	meta.ValueBytes = byteArr
 
@@ -2261,14 +2259,14 @@ func (meta *ThenExpressionListMeta) ReadMetaFrom(reader io.Reader) error {
 		return err
 	}
 
-	meta.ThenExpressionIDs = make([]string, count)
+	meta.ThenExpressionIDs = make([]string, 0, preallocCount(count))
 	for index := uint64(0); index < count; index++ {
 		s, err := ReadStringFromReader(reader)
 		if err != nil {
 
 			return err
 		}
-		meta.ThenExpressionIDs[index] = s
+		meta.ThenExpressionIDs = append(meta.ThenExpressionIDs, s)
 	}
 
 	return nil
@@ -2567,9 +2565,7 @@ func ReadStringFromReader(reader io.Reader) (string, error) {
 		return "", err
 	}
 	strLen := binary.LittleEndian.Uint64(length)
-	strByte := make([]byte, int(strLen))
-	counter, err = io.ReadFull(reader, strByte)
-	TotalRead += uint64(counter)
+	strByte, err := readBytesFromReader(reader, strLen)
 	if err != nil {
 
 		return "", err
@@ -2577,6 +2573,41 @@ func ReadStringFromReader(reader io.Reader) (string, error) {
 	ReadCount++
 
 	return string(strByte), nil
+}
+
+// maxPrealloc bounds what a length or count field of the stream can make the loader allocate before the data
+// it announces has been read: a corrupt field must not demand more memory than the stream holds.
+const maxPrealloc = 1 << 16
+
+// preallocCount is the capacity to reserve for count announced elements.
+func preallocCount(count uint64) int {
+	if count > maxPrealloc {
+
+		return maxPrealloc
+	}
+
+	return int(count)
+}
+
+// readBytesFromReader reads exactly n bytes, growing the buffer as the data arrives.
+func readBytesFromReader(reader io.Reader, n uint64) ([]byte, error) {
+	buf := make([]byte, 0, preallocCount(n))
+	for uint64(len(buf)) < n {
+		step := n - uint64(len(buf))
+		if step > maxPrealloc {
+			step = maxPrealloc
+		}
+		start := len(buf)
+		buf = append(buf, make([]byte, int(step))...)
+		counter, err := io.ReadFull(reader, buf[start:])
+		TotalRead += uint64(counter)
+		if err != nil {
+
+			return nil, err
+		}
+	}
+
+	return buf, nil
 }
 
 // WriteIntToWriter write a 64 bit integer into writer.
